@@ -187,11 +187,11 @@ fn panic_msg(e: Box<dyn std::any::Any + Send>) -> String {
     e.downcast_ref::<String>().cloned().or_else(|| e.downcast_ref::<&str>().map(|s| s.to_string())).unwrap_or("?".into())
 }
 
-pub async fn wire_history<TC: Configuration>(cx: &mut Cx, r: &mut Rng, epochs: usize) {
+pub async fn wire_history<TC: Configuration>(cx: &mut Cx, r: &mut Rng, epochs: usize, nlabels: usize) {
     let cfg = cfg_name::<TC>();
     let db = Db::new();
     let dir = new_dir::<TC>(&db, false, false).await;
-    let labels = label_universe(r, 5);
+    let labels = label_universe(r, nlabels);
     let pk = HardCodedAkdVRF {}.get_vrf_public_key().await.unwrap().as_bytes().to_vec();
     let mut hashes = vec![dir.get_epoch_hash().await.unwrap().1];
     for e in 0..epochs {
@@ -800,6 +800,35 @@ pub async fn vrf_directories<TC: Configuration>(cx: &mut Cx, r: &mut Rng, nkeys:
     }
 }
 
+/// batch derivation on a multi-threaded runtime (tasks complete in any order): every returned node label
+/// must be the one its own (label, freshness, version) derives
+pub async fn vrf_batch_multi<TC: Configuration>(n: usize, seed: u64) -> Vec<String> {
+    let mut r = Rng::new(seed ^ 0x77);
+    let vrf = KeyVrf(r.bytes(32));
+    let mut fails = vec![];
+    let batch: Vec<(AkdLabel, VersionFreshness, u64, AkdValue)> = (0..n)
+        .map(|i| (AkdLabel(vec![(i % 251) as u8, (i / 251) as u8, 7]), if i % 3 == 0 { VersionFreshness::Stale } else { VersionFreshness::Fresh }, 1 + (i as u64 % 5), AkdValue(vec![i as u8])))
+        .collect();
+    match vrf.get_node_labels::<TC>(&batch).await {
+        Ok(res) => {
+            if res.len() != batch.len() {
+                fails.push(format!("C18 [cfg {}]: get_node_labels returned {} entries for {} requests", cfg_name::<TC>(), res.len(), batch.len()));
+            }
+            let mut bad = 0;
+            for ((l, f, v, _), nl) in res {
+                if nl != vrf.get_node_label::<TC>(&l, f, v).await.unwrap() {
+                    bad += 1;
+                }
+            }
+            if bad > 0 {
+                fails.push(format!("C18 [cfg {}]: get_node_labels on a multi-threaded runtime paired {} of {} node labels with the wrong (label, freshness, version)", cfg_name::<TC>(), bad, batch.len()));
+            }
+        }
+        Err(e) => fails.push(format!("C18 [cfg {}]: get_node_labels failed: {:?}", cfg_name::<TC>(), e)),
+    }
+    fails
+}
+
 pub fn run(seed: u64, tier: u32, which: &str) -> Cx {
     let rt = tokio::runtime::Builder::new_current_thread().enable_all().build().unwrap();
     let mut cx = Cx::new();
@@ -809,8 +838,13 @@ pub fn run(seed: u64, tier: u32, which: &str) -> Cx {
         if which == "c19" {
             let n = if tier == 0 { 1 } else { 6 };
             for i in 0..n {
-                wire_history::<W>(&mut cx, &mut r, 4 + i).await;
-                wire_history::<E>(&mut cx, &mut r, 4 + i).await;
+                wire_history::<W>(&mut cx, &mut r, 4 + i, 5).await;
+                wire_history::<E>(&mut cx, &mut r, 4 + i, 5).await;
+            }
+            // tiny directories: the root has a single child, so proofs carry the (non-canonical) empty label
+            for (ne, nl) in [(1usize, 1usize), (1, 2), (2, 1), (3, 2)] {
+                wire_history::<W>(&mut cx, &mut r, ne, nl).await;
+                wire_history::<E>(&mut cx, &mut r, ne, nl).await;
             }
             wire_structural::<W>(&mut cx).await;
             wire_structural::<E>(&mut cx).await;
@@ -823,6 +857,16 @@ pub fn run(seed: u64, tier: u32, which: &str) -> Cx {
             vrf_directories::<E>(&mut cx, &mut r, nk).await;
         }
     });
+    if which == "c18" {
+        let mt = tokio::runtime::Builder::new_multi_thread().worker_threads(4).enable_all().build().unwrap();
+        let n = if tier == 0 { 96 } else { 600 };
+        for rep in 0..(if tier == 0 { 2 } else { 6 }) {
+            for f in mt.block_on(async { let mut v = vrf_batch_multi::<W>(n, seed + rep).await; v.extend(vrf_batch_multi::<E>(n, seed + rep + 100).await); v }) {
+                cx.fail(f);
+            }
+            *cx.stats.entry("vrf_batch_multithread".to_string()).or_insert(0) += 2 * n as u64;
+        }
+    }
     let _ = (String::new().write_str(""),);
     cx
 }
